@@ -13,10 +13,10 @@ def run(tier, seed):
     os.makedirs(W, exist_ok=True)
     exe = gc.build()
     quick = tier == "quick"
-    rng = set(range(-12, 13)) if quick else set(range(-24, 25))
+    lo, hi = ("<- LoSet", "<- HiSet") if quick else ("<- LoSetT", "<- HiSetT")
     # leg 1: C13 for every extent lo <= hi of the range, every even resolution, every point, exact and decimal-unit (ND) arithmetic
     for nd in (False, True):
-        vlib.mc(rep, "MC_RayCast.tla", dict(Dim=2, Rs={2, 4, 6, 8}, LoRange="<- LoSet", HiRange="<- HiSet", ND=nd, MaxCasts=0),
+        vlib.mc(rep, "MC_RayCast.tla", dict(Dim=2, Rs={2, 4, 6, 8}, LoRange=lo, HiRange=hi, ND=nd, MaxCasts=0),
                 "mc_index_nd%d" % nd, ["ConstructorOK", "C13"], view=None, actions=[], workers=8)
     vlib.mc(rep, "MC_RayCast.tla", dict(Dim=3, Rs={2, 4}, LoRange="<- LoSet", HiRange="<- HiSet", ND=True, MaxCasts=0),
             "mc_index_3d", ["ConstructorOK", "C13"], view=None, actions=[], workers=8)
